@@ -66,6 +66,8 @@ type op struct {
 	Payer string
 	Label string // event kind for counters/signatures
 	Tx    *harness.TxSpec
+	// Absent (Kind "absent", no transaction): validator index that does not sign the previous block's commit
+	Absent int
 }
 
 type evCtx struct {
@@ -219,6 +221,21 @@ func events() []*eventDef {
 					unstakeOp("guilty-unstake-second", v1(c).Val, v1(c).Stake, belowMin(locked(c, v1(c), v1(c).Stake)), c.Tag+"u")},
 				{evidenceOp("guilty", w.Vals[2].Val, stk.AllegationVote(id, w.Vals[2].Val, stk.Yes, c.Tag+"c"))},
 			}
+		}},
+		// V1 does not sign (2 signatures in a window of 4 are required: after enough of these blocks the BeginBlock
+		// of a block freezes V1 for missed votes - a freeze that is NEW IN THAT VERY BLOCK, not yet committed when
+		// the block's transactions run), alone and together with a withdrawal / an unstake of S1 in the same block.
+		// (Added after a sub-agent's remark: WITHDRAW's scan of the frozen validators only sees committed records.)
+		{Name: "absent(V1)", Kind: "absent", Blocks: func(c *C) [][]*op {
+			return [][]*op{{{Kind: "absent", Absent: 0, Label: "absent"}}}
+		}},
+		{Name: "block[absent(V1);withdraw(validator-field=B,S1,all)]", Kind: "absent-withdraw-naming-other-validator", Hostile: true, Blocks: func(c *C) [][]*op {
+			return [][]*op{{{Kind: "absent", Absent: 0, Label: "absent"},
+				withdrawOp("absent-withdraw-naming-other-validator", b(c), v1(c).Stake, atLeast1(withdrawable(c, v1(c).Stake)), c.Tag)}}
+		}},
+		{Name: "block[absent(V1);unstake(V1,S1,1)]", Kind: "absent-unstake", Hostile: true, Blocks: func(c *C) [][]*op {
+			return [][]*op{{{Kind: "absent", Absent: 0, Label: "absent"},
+				unstakeOp("absent-unstake", v1(c).Val, v1(c).Stake, 1, c.Tag)}}
 		}},
 		{Name: "release(V1)", Kind: "release", Blocks: func(c *C) [][]*op {
 			return one(evidenceOp("release", c.W.Vals[0].Val, stk.Release(c.W.Vals[0].Val, c.Tag)))
